@@ -73,6 +73,7 @@ type handle struct {
 	notify   chan struct{}
 	deadline time.Time
 	filter   []bpf.Instruction
+	sackDone bool
 	ftype    int
 	reads    int
 }
@@ -97,6 +98,7 @@ type Wire struct {
 	accepted  []net.Conn
 	Accepts   int
 	sackFlow  *Flow
+	sackByPort map[int]*Flow
 	Target    netip.Addr
 	OnProbe   func(v pkt.View)
 	ownerless []byte
@@ -166,9 +168,20 @@ func (w *Wire) fault(op string, run int) (string, bool) {
 }
 
 // SentinelFor is the distinct cause injected for (op, class).
-type Sentinel struct{ Op, Class string }
+type Sentinel struct {
+	Op, Class string
+	parent    error
+}
 
 func (s *Sentinel) Error() string { return "injected-" + s.Op + "-" + s.Class }
+func (s *Sentinel) Unwrap() error { return s.parent }
+
+// SentinelForRun is the cause injected into run r; it wraps SentinelFor(op).
+func SentinelForRun(op string, r int) error {
+	k := op + "@" + strconv.Itoa(r)
+	v, _ := sentinels.LoadOrStore(k, &Sentinel{Op: k, Class: "fatal", parent: SentinelFor(op)})
+	return v.(*Sentinel)
+}
 
 var sentinels sync.Map
 
@@ -196,7 +209,7 @@ func (w *Wire) newSink(addr netip.Addr) (packets.Sink, error) {
 	w.goRun[goid()] = run
 	if cl, ok := w.fault("newsink", run); ok {
 		_ = cl
-		return nil, SentinelFor("newsink")
+		return nil, SentinelForRun("newsink", run)
 	}
 	h := &handle{id: len(w.handles) + 1, kind: "sink", run: run, w: w}
 	w.handles = append(w.handles, h)
@@ -209,7 +222,7 @@ func (w *Wire) newSource() (packets.Source, error) {
 	defer w.mu.Unlock()
 	run := w.goRun[goid()]
 	if _, ok := w.fault("newsource", run); ok {
-		return nil, SentinelFor("newsource")
+		return nil, SentinelForRun("newsource", run)
 	}
 	h := &handle{id: len(w.handles) + 1, kind: "source", run: run, w: w, notify: make(chan struct{}, 1)}
 	w.handles = append(w.handles, h)
@@ -227,7 +240,7 @@ func (s *sink) Close() error {
 	s.closed++
 	w.log("Close", "h", s.id, "kind", "sink", "run", s.run, "count", s.closed)
 	if _, ok := w.fault("close_sink", s.run); ok {
-		return SentinelFor("close_sink")
+		return SentinelForRun("close_sink", s.run)
 	}
 	return nil
 }
@@ -244,7 +257,7 @@ func (s *sink) WriteTo(buf []byte, ap netip.AddrPort) error {
 	}
 	if cl, ok := w.fault("write", s.run); ok {
 		_ = cl
-		return SentinelFor("write")
+		return SentinelForRun("write", s.run)
 	}
 	fs := w.flowFor(b, v)
 	w.log("Send", "h", s.id, "run", s.run, "flow", fs.idx, "ttl", v.TTL, "to", ap.Addr().String(), "p", v)
@@ -290,8 +303,8 @@ func (w *Wire) flowFor(b []byte, v pkt.View) *flowState {
 	if a, err := netip.ParseAddr(v.Dst); err == nil {
 		f.fl.Target = a
 	}
-	if w.sackFlow != nil {
-		f.fl.RemoteISN, f.fl.LocalISN = w.sackFlow.RemoteISN, w.sackFlow.LocalISN
+	if sf, ok := w.sackByPort[v.SPort]; ok && v.Kind == "tcp" {
+		f.fl.RemoteISN, f.fl.LocalISN = sf.RemoteISN, sf.LocalISN
 	}
 	w.flows = append(w.flows, f)
 	w.scheduleInjects(f)
@@ -531,7 +544,7 @@ func (s *source) SetReadDeadline(t time.Time) error {
 		return os.ErrClosed
 	}
 	if _, ok := w.fault("setdeadline", s.run); ok {
-		return SentinelFor("setdeadline")
+		return SentinelForRun("setdeadline", s.run)
 	}
 	s.deadline = t
 	return nil
@@ -548,7 +561,7 @@ func (s *source) SetPacketFilter(spec packets.PacketFilterSpec) error {
 	w.log("SetFilter", "h", s.id, "run", s.run, "ftype", int(spec.FilterType),
 		"fsrc", spec.FilterConfig.Src.String(), "fdst", spec.FilterConfig.Dst.String())
 	if _, ok := w.fault("setfilter", s.run); ok {
-		return SentinelFor("setfilter")
+		return SentinelForRun("setfilter", s.run)
 	}
 	s.ftype = int(spec.FilterType)
 	if spec.FilterType == packets.FilterTypeNone {
@@ -579,7 +592,7 @@ func (s *source) Close() error {
 	default:
 	}
 	if _, ok := w.fault("close_source", s.run); ok {
-		return SentinelFor("close_source")
+		return SentinelForRun("close_source", s.run)
 	}
 	return nil
 }
@@ -607,7 +620,7 @@ func (s *source) Read(buf []byte) (int, error) {
 				case "zero":
 					return 0, nil
 				}
-				return 0, SentinelFor("read")
+				return 0, SentinelForRun("read", s.run)
 			}
 			w.sackAccept(s)
 		}
@@ -647,43 +660,56 @@ func (s *source) Read(buf []byte) (int, error) {
 	}
 }
 
-// sackAccept forges the SYN-ACK of the harness listener's connection the first time a capture handle
-// reads after the code under test dialled the target.
+// sackAccept forges the SYN-ACK of every connection pending on the harness listener the first time a capture
+// handle reads (the code under test dials before it reads the handshake, so its connection is already in the
+// accept queue). Concurrent runs get initial sequence numbers 1000 apart.
 func (w *Wire) sackAccept(s *source) {
-	if w.Listener == nil || w.sackFlow != nil {
+	if w.Listener == nil || s.sackDone {
 		return
 	}
+	s.sackDone = true
 	type dl interface{ SetDeadline(time.Time) error }
-	w.Listener.(dl).SetDeadline(time.Now().Add(200 * time.Millisecond))
-	c, err := w.Listener.Accept()
-	if err != nil {
-		return
-	}
-	w.accepted = append(w.accepted, c)
-	w.Accepts++
-	ra := c.RemoteAddr().(*net.TCPAddr).AddrPort()
-	la := c.LocalAddr().(*net.TCPAddr).AddrPort()
-	fl := &Flow{Local: ra.Addr().Unmap(), Target: la.Addr().Unmap(), RemoteISN: 0x0badc0de, LocalISN: w.script.ISN}
-	w.sackFlow = fl
-	w.log("Accept", "lport", int(ra.Port()), "local", fl.Local.String(), "isn", pkt.U32(fl.LocalISN))
-	if w.script.NoSynack {
-		return
-	}
-	t := pkt.TCP{SPort: la.Port(), DPort: ra.Port(), Seq: fl.RemoteISN, Ack: fl.LocalISN, Flags: pkt.SYN | pkt.ACK, Win: 65535}
-	t.Options = []byte{2, 4, 0xff, 0xd7}
-	if w.script.SackPerm {
-		t.Options = append(t.Options, 4, 2)
-	}
-	if w.script.SackTS {
-		t.Options = append(t.Options, 8, 10, 0, 0, 0x10, 0, 0, 0, 0x20, 0)
-	}
-	b := pkt.BuildIP(pkt.IP{Src: fl.Target, Dst: fl.Local, TTL: 64, Proto: 6}, pkt.BuildTCP(fl.Target, fl.Local, t))
-	if w.script.SynackUs > 0 {
-		w.after(time.Duration(w.script.SynackUs)*time.Microsecond, b, "synack", 0)
-	} else {
-		w.deliverLocked(b, "synack", 0)
+	for {
+		w.Listener.(dl).SetDeadline(time.Now().Add(2 * time.Millisecond))
+		c, err := w.Listener.Accept()
+		if err != nil {
+			return
+		}
+		w.accepted = append(w.accepted, c)
+		w.Accepts++
+		ra := c.RemoteAddr().(*net.TCPAddr).AddrPort()
+		la := c.LocalAddr().(*net.TCPAddr).AddrPort()
+		fl := &Flow{Local: ra.Addr().Unmap(), Target: la.Addr().Unmap(), RemoteISN: 0x0badc0de, LocalISN: w.script.ISN + uint32(1000*(w.Accepts-1))}
+		if w.sackFlow == nil {
+			w.sackFlow = fl
+		}
+		if w.sackByPort == nil {
+			w.sackByPort = map[int]*Flow{}
+		}
+		w.sackByPort[int(ra.Port())] = fl
+		w.log("Accept", "lport", int(ra.Port()), "local", fl.Local.String(), "isn", pkt.U32(fl.LocalISN))
+		if w.script.NoSynack {
+			continue
+		}
+		t := pkt.TCP{SPort: la.Port(), DPort: ra.Port(), Seq: fl.RemoteISN, Ack: fl.LocalISN, Flags: pkt.SYN | pkt.ACK, Win: 65535}
+		t.Options = []byte{2, 4, 0xff, 0xd7}
+		if w.script.SackPerm {
+			t.Options = append(t.Options, 4, 2)
+		}
+		if w.script.SackTS {
+			t.Options = append(t.Options, 8, 10, 0, 0, 0x10, 0, 0, 0, 0x20, 0)
+		}
+		b := pkt.BuildIP(pkt.IP{Src: fl.Target, Dst: fl.Local, TTL: 64, Proto: 6}, pkt.BuildTCP(fl.Target, fl.Local, t))
+		if w.script.SynackUs > 0 {
+			w.after(time.Duration(w.script.SynackUs)*time.Microsecond, b, "synack", 0)
+		} else {
+			w.deliverLocked(b, "synack", 0)
+		}
 	}
 }
+
+// SetISN sets the initial sequence number the forged SYN-ACK acknowledges.
+func (w *Wire) SetISN(v uint32) { w.script.ISN = v }
 
 // Stop cancels pending deliveries and closes harness-side sockets.
 func (w *Wire) Stop() {
